@@ -857,7 +857,16 @@ int main(int argc, char **argv)
     char cmd[32] = "", a[64] = "", b[64] = "", c[64] = ""; long k1 = 0, k2 = 0;
     if (sscanf(line, "%31s", cmd) < 1) continue;
     if (!strcmp(cmd, "list")) {
-      for (i = 0; i < NSCN; i++) printf("scn %s\n", scns[i].name);
+      for (i = 0; i < NSCN; i++) {
+        const char *n = scns[i].name; char t = '-', inner = '-';
+        if (!strncmp(n, "init_", 5)) t = n[5];
+        else if (!strncmp(n, "comp", 4) || !strcmp(n, "encyuv")) t = 'c';
+        else if (!strncmp(n, "dec", 3)) t = 'd';
+        else if (!strncmp(n, "xform", 5)) t = 't';
+        else if (!strncmp(n, "load", 4)) { t = 'c'; inner = 'c'; }
+        else if (!strncmp(n, "save", 4)) { t = 'd'; inner = 'd'; }
+        printf("scn %s %c %c\n", n, t, inner);
+      }
       printf("endlist\n");
     } else if (!strcmp(cmd, "run")) {
       const scn_t *s = NULL;
